@@ -80,6 +80,19 @@ def make_oracle(chk, lastf, case):
                 x = x[2][0]
             if x[0] == 'field' and x[2] == lastf and x[1][0] == 'param':
                 return has_last
+            # `match key.cmp(last) { Less => .., Equal => .., Greater => .. }`: the discriminant of the Ordering (Less = -1i8 = 255)
+            if x[0] == 'call' and isinstance(x[1], str) and x[1].rsplit('::', 1)[-1] in ('cmp', 'partial_cmp') and len(x[2]) == 2 and ('cmp' in x[1]):
+                a, b = x[2]
+                a_key = any(mentions_param(a, i) for i in key_ix) and not mentions_field(a, lastf)
+                b_key = any(mentions_param(b, i) for i in key_ix) and not mentions_field(b, lastf)
+                a_last, b_last = mentions_field(a, lastf), mentions_field(b, lastf)
+                o = None
+                if a_key and b_last and not b_key:
+                    o = ordv
+                elif b_key and a_last and not a_key:
+                    o = {'lt': 'gt', 'gt': 'lt', 'eq': 'eq'}[ordv]
+                if o is not None and x[1].rsplit('::', 1)[-1] == 'cmp':
+                    return {'lt': 255, 'eq': 0, 'gt': 1}[o]
             return None
         if e[0] == 'param' and bool_ix and e[2] == bool_ix[0]:
             return dupe
